@@ -3,7 +3,7 @@ TITLE = 'Shuffles preserve composition (mono- or di-nucleotide), flanks and dete
 CONTRACT_MODULES = ['contracts.utils_c', 'contracts.ersatz_c']
 FUNCTIONS = ['tangermeme.ersatz.shuffle', 'tangermeme.ersatz.dinucleotide_shuffle']
 BOUNDED = 'bounded.C02'
-BOUNDED_BUDGET = {'quick': 60, 'thorough': 900}
+BOUNDED_BUDGET = {'quick': 120, 'thorough': 900}
 LEVEL = 'other'
 EXPLANATION = ("deductive: shuffle = per-shuffle permutation of the region (random tape model of the generator; composition then "
                "follows by the Lean lemma sum_perm), flanks identical, raises-iff, frame, determinism in (input, region, n, seed); "
